@@ -65,7 +65,13 @@ func VerifC16_NodeRepair() {
 		if i < unhealthyOthers {
 			st = corev1.ConditionFalse
 		}
-		kc.Nodes = append(kc.Nodes, stubs.Node("node-"+strconv.Itoa(i+1), "verif://i-"+strconv.Itoa(i+1), st))
+		other := stubs.Node("node-"+strconv.Itoa(i+1), "verif://i-"+strconv.Itoa(i+1), st)
+		// an unhealthy node that is already being deleted (held by its finalizer while it drains) is still an unhealthy node
+		if i < unhealthyOthers && i == 0 && verifrt.Choice("otherUnhealthy.firstIsDeleting", 0, 1) == 1 {
+			other.Finalizers = []string{v1.TerminationFinalizer}
+			other.DeletionTimestamp = &metav1.Time{Time: time.Unix(1700000000, 0)}
+		}
+		kc.Nodes = append(kc.Nodes, other)
 	}
 	total := others + 1
 	unhealthy := unhealthyOthers
